@@ -42,6 +42,7 @@ class Unit:
         self.tags = {}         # fnpath -> set(props)   (which properties claim this function)
         self.vcpath = None
         self.outside = []      # raw Rust emitted after the verus! block (Display impls etc.)
+        self.included = set()
         self.sqlmap = {}       # (fnpath, ordinal) -> dict(stub, sha): R7
         self.sqlseen = []      # what R7 found: dict(fn, n, stub, sha, sql)
 
@@ -65,7 +66,9 @@ def parse_vc(path):
             if raw.startswith("@@ vcinclude"):
                 ip = os.path.join(os.path.dirname(path), raw.split()[2])
                 u.incfiles.append(os.path.relpath(ip, os.path.dirname(path)))
+                lines.append((base + n, "@@ end"))
                 expand(ip, (len(u.incfiles) - 1) * 100000)
+                lines.append((base + n, "@@ end"))
             else:
                 lines.append((base + n, raw))
     expand(path, 0)
@@ -193,6 +196,9 @@ def parse_vc(path):
         elif d == "rust":
             cur = dict(kind="rust", line=ln)
         elif d == "include":
+            if parts[1] in u.included:
+                continue
+            u.included.add(parts[1])
             ip = os.path.join(os.path.dirname(path), "inc", parts[1] + ".vinc")
             u.seq.append(dict(kind="verus", text=open(ip).read().strip("\n"), line=0, origin="inc/%s.vinc" % parts[1]))
         elif d == "end":
